@@ -132,7 +132,7 @@ class CipherState:
                 self.iv = ct[-bs:]
             frag = prefix + ct
             if self.etm:
-                frag += hmac.new(self.mac_key, struct.pack("!QBHH", seq, ctype, rv, len(frag)) + frag, sp.mac).digest()
+                frag += self._mac(seq, ctype, rv, frag)
         elif sp.mode in ("GCM", "CCM"):
             explicit = struct.pack("!Q", seq)
             aad = struct.pack("!QBHH", seq, ctype, rv, len(data))
@@ -173,7 +173,7 @@ class CipherState:
             body = frag
             if self.etm:
                 body, mac = frag[:-ml], frag[-ml:]
-                want = hmac.new(self.mac_key, struct.pack("!QBHH", seq, ctype, rv, len(body)) + body, sp.mac).digest()
+                want = self._mac(seq, ctype, rv, body)
                 if not hmac.compare_digest(mac, want):
                     raise ValueError("bad MAC (EtM)")
             if v >= TLS11:
@@ -353,6 +353,9 @@ class Connection:
             exts = b"".join(client_hello_exts(s["exts"], v, s["etm"], self.rng))
             if exts or v == TLS13:
                 body += struct.pack("!H", len(exts)) + exts
+        elif s["etm"]:
+            exts = ext(0xFF01, b"\x00") + ext(22, b"")
+            body += struct.pack("!H", len(exts)) + exts
         return hs_msg(1, body)
 
     def _server_hello(self):
@@ -365,6 +368,9 @@ class Connection:
             exts = b"".join(server_hello_exts(s["exts"], v, s["etm"], self.rng))
             if exts or v == TLS13 or s["exts"] == "empty_block":
                 body += struct.pack("!H", len(exts)) + exts
+        elif s["etm"]:
+            exts = ext(0xFF01, b"\x00") + ext(22, b"")
+            body += struct.pack("!H", len(exts)) + exts
         return hs_msg(2, body)
 
     def _app_payload(self, d, n):
@@ -382,7 +388,7 @@ class Connection:
             self.keylog.append(f"CLIENT_RANDOM {self.client_random.hex()} {master.hex()}")
         km = key_material(v, sp, master, self.client_random, self.server_random)
         self.km = km
-        etm = s["etm"] and v != SSL30
+        etm = s["etm"]
         cw = CipherState(v, sp, km["client_key"], km["client_mac"], km["client_iv"], etm, rng)
         sw = CipherState(v, sp, km["server_key"], km["server_mac"], km["server_iv"], etm, rng)
         self.cw, self.sw = cw, sw
